@@ -13,6 +13,7 @@ FUNCS = ("cutplace.validio.Reader.rows", "cutplace.validio.BaseValidator.validat
          "cutplace.fields.AbstractFieldFormat.validate_empty", "cutplace.fields.AbstractFieldFormat.validate_length",
          "cutplace.interface.Cid._create_class")
 
+CHECK_NAMES = ["z_first", "a_second", "m_third"]  # declaration order differs from the sorted order on purpose
 LOG = []
 CTL = {"veto": {}, "endfail": {}}
 _classes = []
@@ -73,7 +74,7 @@ def make_cid_text(fkeys, ncheck, fmt, allowed):
             length = "2"
         lines.append("f,f%d,,%s,%s,Rec," % (i, "X" if empty else "", length))
     for k in range(ncheck):
-        lines.append("c,chk%d,Rec,whatever" % k)
+        lines.append("c,%s,Rec,whatever" % CHECK_NAMES[k])
     return "\n".join(lines) + "\n"
 
 
@@ -109,7 +110,7 @@ def predict_cell(k, cell, fmt, allowed):
 
 def predict(fkeys, ncheck, fmt, allowed, header, limit, rows, veto, endfail, mode, writer=False):
     """the call log the protocol prescribes (+ whether close raises)"""
-    log = [("reset", "chk%d" % k) for k in range(ncheck)]
+    log = [("reset", CHECK_NAMES[k]) for k in range(ncheck)]
     n = len(fkeys)
     stopped = False
     written = 0  # writer: the location counts the rows written so far, and 'header' refers to them
@@ -141,7 +142,7 @@ def predict(fkeys, ncheck, fmt, allowed, header, limit, rows, veto, endfail, mod
                         break
             if not rejected:
                 for k in range(ncheck):
-                    log.append(("row", "chk%d" % k, written if writer else i - 1))
+                    log.append(("row", CHECK_NAMES[k], written if writer else i - 1))
                     if veto[k][written if writer else i - 1]:
                         rejected = True
                         break
@@ -151,12 +152,12 @@ def predict(fkeys, ncheck, fmt, allowed, header, limit, rows, veto, endfail, mod
             stopped = True
     close_raises = False
     for k in range(ncheck):
-        log.append(("end", "chk%d" % k))
+        log.append(("end", CHECK_NAMES[k]))
         if endfail[k]:
             close_raises = True
             break
     for k in range(ncheck):
-        log.append(("cleanup", "chk%d" % k))
+        log.append(("cleanup", CHECK_NAMES[k]))
     return log, close_raises
 
 
@@ -193,8 +194,8 @@ def make(fkeys, ncheck, nrows, fmt, allowed_text, allowed, mode, runs, ragged=No
         endfail = [endfails[k] for k in range(ncheck)]
         cid = rf.build_cid(text)
         rf.set_header(cid, header)
-        CTL["veto"] = dict((("chk%d" % k, r), veto[k][r]) for k in range(ncheck) for r in range(nrows))
-        CTL["endfail"] = dict(("chk%d" % k, endfail[k]) for k in range(ncheck))
+        CTL["veto"] = dict(((CHECK_NAMES[k], r), veto[k][r]) for k in range(ncheck) for r in range(nrows))
+        CTL["endfail"] = dict((CHECK_NAMES[k], endfail[k]) for k in range(ncheck))
         ok = True
         why = ""
         with patched(rf.smart_repr(), *rf.srows_patches()):
@@ -214,6 +215,19 @@ def make(fkeys, ncheck, nrows, fmt, allowed_text, allowed, mode, runs, ragged=No
                         except errors.CheckError:
                             close_raised = True
                     exp, exp_raise = predict(fkeys, ncheck, fmt, allowed, header, None, rows, veto, endfail, "yield", True)
+                elif mode == "reader-twice":
+                    # one Reader iterated twice: every pass starts with one reset of every check; one close at the end
+                    reader = validio.Reader(cid, rows, on_error="yield", validate_until=lim)
+                    for _pass in range(2):
+                        for _ in reader.rows():
+                            pass
+                    try:
+                        reader.close()
+                    except errors.CheckError:
+                        close_raised = True
+                    one, exp_raise = predict(fkeys, ncheck, fmt, allowed, header, lim, rows, veto, endfail, "yield")
+                    body = [e for e in one if e[0] in ("reset", "value", "row")]
+                    exp = body + body + [e for e in one if e[0] in ("end", "cleanup")]
                 else:
                     reader = validio.Reader(cid, rows, on_error=mode, validate_until=lim)
                     try:
@@ -312,6 +326,34 @@ def native_resolution():
             got, kinds = None, "%s: %s" % (type(e).__name__, e)
         if got != ok:
             failures.append(dict(key="class-resolution", what="CID %r: accepted=%r (%s), expected %r" % (text, got, kinds, ok), args=dict(cid=text)))
+    # plugin folders: two folders each holding an equally named module with different classes; both get imported
+    import gc
+    import os
+    import shutil
+    import tempfile
+    d = tempfile.mkdtemp()
+    gc_was = gc.isenabled()
+    gc.disable()  # plugin classes are only weakly referenced
+    try:
+        for i, cls in enumerate(("FolderOne", "FolderTwo")):
+            folder = os.path.join(d, "plugins%d" % i)
+            os.mkdir(folder)
+            with open(os.path.join(folder, "myplugin.py"), "w") as f:
+                f.write("from cutplace import fields\n\nclass %sFieldFormat(fields.AbstractFieldFormat):\n"
+                        "    def __init__(self, n, e, l, r, d):\n        super().__init__(n, e, l, r, d, empty_value='')\n"
+                        "    def validated_value(self, value):\n        return value\n" % cls)
+            interface.import_plugins(folder)
+        for cls in ("FolderOne", "FolderTwo"):
+            n += 1
+            try:
+                interface.create_cid_from_string("d,format,delimited\nf,x,,,,%s\n" % cls)
+            except Exception as e:  # noqa
+                failures.append(dict(key="plugin-import", what="class %sFieldFormat from a plugin folder is not resolved: %s: %s" % (
+                    cls, type(e).__name__, str(e)[:120]), args=dict(cls=cls)))
+    finally:
+        if gc_was:
+            gc.enable()
+        shutil.rmtree(d)
     return dict(count=n, failures=failures, samples=[dict(query="native/class-resolution", cases=n)])
 
 
@@ -327,6 +369,7 @@ def build(tier, seed):
         (("A", "B"), 2, 2, "delimited", None, None, "writer", 1, None),
         (("A", "B"), 1, 2, "delimited", None, None, "continue", 1, [1, 3]),
         (("C",), 2, 3, "delimited", None, None, "yield", 1, None),
+        (("A",), 2, 2, "delimited", None, None, "reader-twice", 1, None),
     ]
     if tier == "thorough":
         conf += [
